@@ -7,6 +7,7 @@ import Toq.Proofs.StatesMub
 import Toq.Proofs.StatesMore
 import Toq.Proofs.StatesMisc
 import Toq.Proofs.StatesTensor
+import Toq.Proofs.StatesScale
 import Mathlib.RingTheory.RootsOfUnity.Complex
 /-!
 # C17 — named states and standard matrices satisfy their defining identities
@@ -1488,6 +1489,43 @@ theorem wernerList_tensor_invariant {α : Type} [Field α] (d p : Nat) (hd : 0 <
 theorem wernerPerms_valid : WernerPermsValid 2 true ∧ WernerPermsValid 2 false ∧ WernerPermsValid 3 true ∧
     WernerPermsValid 3 false ∧ WernerPermsValid 4 true ∧ WernerPermsValid 4 false :=
   wernerPermsValid_small
+
+
+/-! ## coefficient vectors are normalised at every scale -/
+
+/-- **`ghz(d, n, coeff)` does not depend on the scale of `coeff`**: normalising `t·c` (divide by `‖t·c‖`) and filling gives,
+    entry by entry, the state obtained from `c` — every `d`, `n`, real coefficient vector `c`, every `t > 0` (norms far
+    below or above 1 included: no threshold on `‖coeff‖` is part of the definition). -/
+theorem ghz_coeff_scale_invariant (d n : Nat) (c : Nat → ℝ) (t : ℝ) (ht : 0 < t) (j : Nat) :
+    ghzGenG d n (fun i => t * c i) j / Real.sqrt (sumN d (fun i => (t * c i) * (t * c i)))
+      = ghzGenG d n c j / Real.sqrt (sumN d (fun i => c i * c i)) := by
+  rw [sumN_scale_sq]
+  exact pickG_normalised_scale t ht d (ghzIdx d n) c _ j
+
+/-- **`w_state(n, coeff)` does not depend on the scale of `coeff`** — every `n`, real `c`, `t > 0`. -/
+theorem w_coeff_scale_invariant (n : Nat) (c : Nat → ℝ) (t : ℝ) (ht : 0 < t) (j : Nat) :
+    wGenG n (fun i => t * c i) j / Real.sqrt (sumN n (fun i => (t * c i) * (t * c i)))
+      = wGenG n c j / Real.sqrt (sumN n (fun i => c i * c i)) := by
+  rw [sumN_scale_sq]
+  exact pickG_normalised_scale t ht n (fun i => 2 ^ i) (fun i => c (n - i - 1)) _ j
+
+/-- **Oracle of the scaled-coefficient check (GHZ)**: for an integer vector `c` and any `t > 0` the state built from the
+    coefficients `t·c` is `ghzGen d n c / √(Σ c_i²)` — exactly what the driver reports for `c` (numerators `ghzGen`,
+    `den2 = Σ c_i²`), to which `ghz_support` / `ghz_norm` apply. -/
+theorem ghz_scaled_coeff_model (d n : Nat) (c : Nat → Int) (t : ℝ) (ht : 0 < t) (j : Nat) :
+    ghzGenG d n (fun i => t * (c i : ℝ)) j / Real.sqrt (sumN d (fun i => (t * (c i : ℝ)) * (t * (c i : ℝ))))
+      = ((ghzGen d n c j : Int) : ℝ) / Real.sqrt ((sumN d (fun i => c i * c i) : Int) : ℝ) := by
+  rw [ghz_coeff_scale_invariant d n (fun i => (c i : ℝ)) t ht j, ghzGenG_cast, sumN_int_cast]
+  simp only [Int.cast_mul]
+
+/-- **Oracle of the scaled-coefficient check (W state)**: likewise `wGen n c / √(Σ c_i²)`. -/
+theorem w_scaled_coeff_model (n : Nat) (c : Nat → Int) (t : ℝ) (ht : 0 < t) (j : Nat) :
+    wGenG n (fun i => t * (c i : ℝ)) j / Real.sqrt (sumN n (fun i => (t * (c i : ℝ)) * (t * (c i : ℝ))))
+      = ((wGen n c j : Int) : ℝ) / Real.sqrt ((sumN n (fun i => c i * c i) : Int) : ℝ) := by
+  rw [w_coeff_scale_invariant n (fun i => (c i : ℝ)) t ht j, wGenG_cast, sumN_int_cast]
+  simp only [Int.cast_mul]
+
+example : (0 : ℝ) < (2 : ℝ)⁻¹ ^ 60 := by positivity
 
 
 end Toq.C17
